@@ -36,6 +36,10 @@ def nestBuf (b : Bytes) : Bytes := u32be b.length ++ b
 /-- `BigUint::dep_encode`: u32 length prefix, then minimal big-endian bytes. -/
 def nestBig (n : Nat) : Bytes := nestBuf (natBE n)
 
+/-- key of an ESDT balance: fungible tokens (nonce 0) by identifier, SFT/NFT instances by
+    identifier '#' nonce (identifiers never contain '#') -/
+def esdtKey (tok : Bytes) (nonce : Nat) : Bytes := if nonce = 0 then tok else tok ++ [35] ++ natBE nonce
+
 /-! ### hex (driver I/O only) -/
 
 def hexDigit (n : Nat) : Char :=
